@@ -53,13 +53,14 @@ Definition step_ev (s : est) (w : who) : option event :=
                           | GClr => ev_ kW cellInproc 0 0 0
                           | GLdCs => ev_ kR cellCstate (cstate s) 0 0
                           | GCas => ev_ kCAS cellInproc 0 1 (b2z (inproc s =? 0))
-                          | GCbClose c | GClose c => cev s c
+                          | GCbClose c _ | GClose c => cev s c
                           | _ => None
                           end
               end
   | WClo i => match nth_error (clos s) i with None => None | Some c => cev s c end
   | WSet => match spc s with SCas => ev_ kCAS cellInproc 0 1 (b2z (inproc s =? 0)) | _ => None end
   | WUser _ => None
+  | WSync => None
   end.
 
 Definition terminal (s : est) (w : who) : bool :=
@@ -69,6 +70,11 @@ Definition terminal (s : est) (w : who) : bool :=
   | WClo i => match nth_error (clos s) i with None => true | Some c => cterm c end
   | WSet => match spc s with SDone => true | _ => false end
   | WUser _ => true
+  | WSync => match sypc s with
+             | SyCons _ => false
+             | SyIdle => if cbset s then true else
+                         match spc s, sytodo s with SIdle, _ :: _ => false | _, _ => true end
+             end
   end.
 (* the harness puts an (event-less) scheduling point in front of SetCallbacks, so that installing the
    callbacks and the CAS on callbackInProcess are two implementation steps *)
@@ -107,7 +113,7 @@ Fixpoint first_diff {A} (eqb : A -> A -> bool) (a b : list A) (n : nat) : option
   end.
 
 Record scase := {
-  s_cb0 : bool; s_inb : list ev; s_ncl : nat; s_script : list (nat * bool);
+  s_cb0 : bool; s_inb : list ev; s_ncl : nat; s_script : list (nat * nat); s_sy : list nat;
   s_sched : list who;
   s_events : list (option event);           (* observed, one per implementation step *)
   s_offers : list (list Z);                 (* observed: what each OnData invocation found in recvBuf *)
@@ -121,12 +127,12 @@ Fixpoint all_terminal_g (s : est) (n : nat) : bool :=
 Fixpoint all_terminal_c (s : est) (n : nat) : bool :=
   match n with O => true | S k => terminal s (WClo k) && all_terminal_c s k end.
 Definition model_quiescent (s : est) (setter : bool) : bool :=
-  terminal s WEv && all_terminal_g s (length (gors s)) && all_terminal_c s (length (clos s)).
+  terminal s WEv && all_terminal_g s (length (gors s)) && all_terminal_c s (length (clos s)) && terminal s WSync.
 
 (* 0 agree; 1 trace differs (position); 2 offers differ; 3 consumed differ; 4 final scalars differ; 5 leftover bytes differ;
    6 the implementation's threads all finished but a model thread still has steps to take *)
 Definition check_case (c : scase) : Z * option nat :=
-  let s0 := init (s_cb0 c) (s_inb c) (s_ncl c) (s_script c) [] in
+  let s0 := init_sy (s_cb0 c) (s_inb c) (s_ncl c) (s_script c) [] (s_sy c) in
   let '(tr, s) := btrace (s_sched c) s0 in
   match first_diff oev_eqb tr (s_events c) 0 with
   | Some n => (1, Some n)
@@ -152,7 +158,7 @@ Fixpoint mismatches_from (n : nat) (cs : list scase) : list (nat * Z * option na
 Definition mismatches := mismatches_from 0.
 
 (* diagnostics for replay files *)
-Definition model_trace (c : scase) := fst (btrace (s_sched c) (init (s_cb0 c) (s_inb c) (s_ncl c) (s_script c) [])).
+Definition model_trace (c : scase) := fst (btrace (s_sched c) (init_sy (s_cb0 c) (s_inb c) (s_ncl c) (s_script c) [] (s_sy c))).
 Definition model_final (c : scase) :=
-  let s := snd (btrace (s_sched c) (init (s_cb0 c) (s_inb c) (s_ncl c) (s_script c) [])) in
+  let s := snd (btrace (s_sched c) (init_sy (s_cb0 c) (s_inb c) (s_ncl c) (s_script c) [] (s_sy c))) in
   (offers s, consumed s, [st s; inproc s; cstate s; b2z (intable s); nlocal s; nremote s], recv s, concat (pending s)).
